@@ -290,3 +290,20 @@ def csc_tokens(Xs):
             out.append(str(int(Xs.indices[t])))
             out.append(fb(Xs.data[t]))
     return " ".join(out)
+
+
+_seed_fn = None
+
+
+def seed_numba(k=12345):
+    """numba keeps its own RNG state (used by the power iteration of sparse_ops.spectral_norm):
+    re-seed it so that repeated runs of one case are deterministic prefixes of one another"""
+    global _seed_fn
+    if _seed_fn is None:
+        from numba import njit
+
+        @njit
+        def _s(v):
+            np.random.seed(v)
+        _seed_fn = _s
+    _seed_fn(k)
